@@ -244,7 +244,19 @@ func c19Watch(r *core.Run, w *wworld.World, wallets map[*wworld.WalletNode]*c19S
 			for _, m := range w.Mints {
 				m.Env.RefreshKeysets()
 				for id := range m.Env.Keysets {
-					seed.derive(id, x.Store.GetKeysetCounter(id)+40)
+					c := x.Store.GetKeysetCounter(id)
+					// NUT-13 counters are hardened path elements: below 2^31. A stored counter beyond that (or one
+					// that has run away from everything ever signed) leaves a wallet that cannot derive its next
+					// outputs, or that wraps around to counters it has used
+					top := uint32(0)
+					if ms, ok := seed.maxSigned()[id]; ok {
+						top = ms
+					}
+					if c >= 1<<31 || c > top+100000 {
+						r.Violate("stored-counter-out-of-range:"+op, fmt.Sprintf("%s: the stored counter of keyset %s is %d; the highest counter ever signed is %d", x.Name, id, c, top), fmt.Sprintf("%s/op%d", sig, s.NOps), s.Tail(8))
+						continue
+					}
+					seed.derive(id, c+40)
 				}
 			}
 		}
